@@ -81,7 +81,7 @@ void chk_run_case(uint64_t seed, long c, bool is_sweep)
         eng_default_profile();
         if (is_sweep) { if (c < N_SWEEP_A) sweep_bytes(c); else sweep_mincap(c - N_SWEEP_A); return; }
         snprintf(mode, sizeof mode, "random history (unspecified cells included)");
-        EP.unspecified_cells = true; EP.p_weird = 25; EP.p_long_line = 20; EP.p_event_step = rn(150); EP.p_cut = 20;
+        EP.unspecified_cells = true; EP.p_weird = 25; EP.p_long_line = 20; EP.p_event_step = rn(150); EP.p_cut = 20; EP.p_lookup = 40;
         if (chance(20)) EP.max_cmds = 64;
         eng_gen_table();
         paint();
